@@ -498,6 +498,10 @@ class TrackFamily(PureFamily):
             return lk.refine_tracks_centroid(o, track_width=op[3])
         if n == "add":
             return o + objs[op[3]]
+        if n == "add_slices":
+            return o[:1] + o[1:]
+        if n == "add_rest":
+            return o + objs[0][1:]
         if n == "copy":
             return _copy.copy(o)
         raise KeyError(n)
@@ -1229,6 +1233,19 @@ def random_history(rng, fam, obj, length, p_derive=0.3):
     return hist
 
 
+def keep_len3(h):
+    """length-3 histories that are always kept: a query, anything, the same query again (idempotence / a derivation in
+    between); a derivation followed by the same query on two objects"""
+    a, b, c = h
+    if a[0] == "q" and c[0] == "q" and a[2] == c[2]:
+        return True
+    if a[0] == "d" and b[0] == "q" and c[0] == "q" and b[2] == c[2]:
+        return True
+    if a[0] == "d" and b[0] == "d" and c[0] == "q":
+        return True
+    return False
+
+
 def exhaustive_histories(fam, obj, alphabet_q, derivs, maxlen):
     """all histories of length <= maxlen: queries of `alphabet_q` on object 0 or the newest object, derivations
     from `derivs` (functions of the target id)"""
@@ -1239,9 +1256,10 @@ def exhaustive_histories(fam, obj, alphabet_q, derivs, maxlen):
         for h in frontier:
             nobj = 1 + sum(1 for o in h if o[0] == "d")
             targets = sorted({0, nobj - 1})
-            for t in targets:
+            for t in range(nobj):
                 for q in alphabet_q:
                     nxt.append(h + [["q", t, q]])
+            for t in targets:
                 if nobj < 3:
                     for d in derivs:
                         op = d(t, h)
@@ -1264,10 +1282,24 @@ def is_view(h, t):
     return False
 
 
+def rows_of(h, t, P):
+    """pixel rows of object t of a small-scope kymograph history"""
+    if t == 0:
+        return P
+    x = [i for i, o in enumerate(h) if o[0] == "d"][t - 1]
+    r = rows_of(h, h[x][1], P)
+    if h[x][2] == "crop":
+        return h[x][4] - h[x][3]
+    if h[x][2] == "down":
+        return r // h[x][4]
+    return r
+
+
 KYMO_DERIVS = [
     lambda t, h: ["d", t, "slice", None, None] if not is_view(h, t) else None,
     lambda t, h: ["d", t, "crop", 0, 1],
     lambda t, h: ["d", t, "copy"],
+    lambda t, h: ["d", t, "down", 1, 2] if rows_of(h, t, 2) >= 2 else None,
 ]
 KYMO_DERIVS_MORE = KYMO_DERIVS + [
     lambda t, h: ["d", t, "down", 1, 1],
@@ -1333,7 +1365,7 @@ def pure_derive(tr, rng, i, m):
             return ["d", i, "tether", float(x0), float(y0), float(x0 + 1), float(y0)]
         return ["d", i, "copy"]
     if fam == "tracks":
-        choice = rng.choice(["filter", "slice", "refine", "add", "copy"])
+        choice = rng.choice(["filter", "slice", "refine", "add", "add_slices", "add_rest", "copy"])
         if choice == "filter":
             return ["d", i, "filter", rng.randint(1, 5)]
         if choice == "slice":
@@ -1342,6 +1374,8 @@ def pure_derive(tr, rng, i, m):
             return ["d", i, "refine", rng.choice([0.3, 0.5])]
         if choice == "add":
             return ["d", i, "add", rng.randint(0, n - 1)]
+        if choice in ("add_slices", "add_rest"):
+            return ["d", i, choice]
         return ["d", i, "copy"]
     raise KeyError(fam)
 
@@ -1471,15 +1505,49 @@ def cases(tier, rng):
                 yield dict(c, stream="corpus")
 
     # ---- exhaustive small scope
-    kq = ["start", "lineTime", "pixelTime", "image.r", "duration", "lineRanges", "infowave"]
-    sq = ["start", "pixelTime", "image.r", "ts.mean", "numFrames", "shape"]
+    kq = ["start", "lineTime", "pixelTime", "image.r", "duration", "lineRanges", "infowave", "static.0"]
+    sq = ["start", "pixelTime", "image.r", "ts.mean", "numFrames", "shape", "static.0"]
     r3 = rng.fork("len3")
     for fam, obj in confocal_objects(quick):
         alpha_q = kq if fam == "kymo" else sq
         derivs = (KYMO_DERIVS if quick else KYMO_DERIVS_MORE) if fam == "kymo" else SCAN_DERIVS
         allh = exhaustive_histories(fam, obj, alpha_q, derivs, 3)
         for h in allh:
-            if len(h) <= 2 or not quick or r3.chance(0.12):
+            if len(h) <= 2 or not quick or keep_len3(h) or r3.chance(0.03):
+                yield {"stream": "small-scope", "family": fam, "obj": obj, "hist": h}
+    # object kinds without start-dependent state: every history of length <= 3 (F,d curves, channels) / <= 2 (+ a sample
+    # of length 3: image stacks, track groups) over a reduced alphabet
+    pure_scope = [
+        ("fd", {"ts": [T0 + 1000 * i for i in range(6)], "f2": [1.0, 4.0, 7.0, 3.0, 6.0, 2.0], "f1": [2.0, 7.0, 1.0, 6.0, 0.0, 5.0],
+                "d1": [1.0, 2.0, 3.0, 4.0, 5.0, 6.0], "d2": [2.0, 2.5, 3.0, 3.5, 4.0, 4.5], "start": T0, "stop": T0 + 5001},
+         ["f", "d", "range"],
+         [lambda t, h: ["d", t, "channels", "1", "2"], lambda t, h: ["d", t, "slice", T0 + 1000, T0 + 4000],
+          lambda t, h: ["d", t, "offset", 1.0, 1.0], lambda t, h: ["d", t, "sub", 0]], 1.0),
+        ("channel", {"kind": "cont", "data": [1.0, 2.0, 3.0, 4.0, 5.0, 6.0], "start": T0, "dt": 7, "h5": True},
+         ["data", "timestamps", "range"],
+         [lambda t, h: ["d", t, "slice", T0 + 7, T0 + 30], lambda t, h: ["d", t, "downby", 2], lambda t, h: ["d", t, "mul", 2.0],
+          lambda t, h: ["d", t, "sub_self"]], 1.0),
+        ("channel", {"kind": "ts", "data": [1.0, 2.0, 3.0, 4.0], "ts": [T0 + 1, T0 + 4, T0 + 9, T0 + 11]},
+         ["data", "timestamps", "range"],
+         [lambda t, h: ["d", t, "slice", T0 + 2, T0 + 10], lambda t, h: ["d", t, "neg"], lambda t, h: ["d", t, "add", 1.0]], 0.3),
+        ("stack", None, ["image", "ranges", "nframes", "static"],
+         [lambda t, h: ["d", t, "frames", 1, None, 2], lambda t, h: ["d", t, "crop", 1, 3, 0, 2], lambda t, h: ["d", t, "frame", 0],
+          lambda t, h: ["d", t, "tether", 0.0, 1.0, 2.0, 1.0]], 0.04 if quick else 0.3),
+        ("tracks", {"image": [[(r * 3 + c * 5) % 7 for c in range(10)] for r in range(8)],
+                    "tracks": [{"t": [0, 1, 2, 3, 4, 5], "c": [2.0, 2.5, 3.0, 2.5, 3.0, 3.5]}, {"t": [3, 4, 5], "c": [5.0, 5.5, 5.0]},
+                               {"t": [6, 7, 8, 9], "c": [3.0, 3.0, 3.5, 4.0]}], "route": "array", "line_time_s": 0.125},
+         ["state", "len", "duration"],
+         [lambda t, h: ["d", t, "filter", 4], lambda t, h: ["d", t, "slice", None, 1], lambda t, h: ["d", t, "refine", 0.5],
+          lambda t, h: ["d", t, "add_rest"]], 0.04 if quick else 0.3),
+    ]
+    r5 = rng.fork("pure-scope")
+    for fam, obj, qs, ds, p3 in pure_scope:
+        if obj is None:
+            import builders_tiff as bt
+
+            obj = bt.make_spec(files=[2, 2], h=3, w=4, colour="grey", exposure=40_000_000, align=False)
+        for h in exhaustive_histories(fam, obj, qs, ds, 3):
+            if len(h) <= 2 or keep_len3(h) or r5.chance(p3):
                 yield {"stream": "small-scope", "family": fam, "obj": obj, "hist": h}
 
     # ---- seeded random
